@@ -545,6 +545,60 @@ def gen_susp_prog(rng, max_actors=4, max_ops=6):
     return new_prog(rec=[False] if with_mutex else [], cap=[rng.choice([0, 1])] * ns, actors=actors, timed=True)
 
 
+def gen_restart_prog(rng, max_actors=4, max_ops=5):
+    """Auto-restart (C11): victims register on_exit callbacks, ask to be restarted with their host, then sleep / wait; a controller
+    turns their hosts off and on again (always at a later date: a reboot while the previous incarnation is still dying is not
+    modelled), possibly twice; bystanders join, kill or suspend the victims. One host per actor."""
+    na = rng.randint(2, max_actors)
+    nv = rng.randint(1, max(1, na - 1))
+    victims = list(range(1, 1 + nv))         # actor 0 is the controller
+    ns = rng.randint(0, 1)
+    actors = [[] for _ in range(na)]
+    ctl = actors[0]
+    for _ in range(rng.randint(1, 3)):
+        v = rng.choice(victims)
+        ctl.append(op("sleep", 0, 0, rng.randint(1, 3)))
+        ctl.append(op("hostoff", v + 1))
+        if rng.random() < 0.3:
+            ctl.append(op("join", v + 1, 0, rng.choice([-1, 2])))
+        ctl.append(op("sleep", 0, 0, rng.randint(1, 3)))
+        ctl.append(op("hoston", v + 1))
+    if rng.random() < 0.5:
+        ctl.append(op("sleep", 0, 0, rng.randint(1, 4)))
+        ctl.append(op("kill", rng.choice(victims) + 1))
+    for a in range(1, na):
+        ops = actors[a]
+        nid = 0
+        if a in victims:
+            pre = rng.randint(0, 2)
+            for _ in range(pre):
+                nid += 1
+                ops.append(op("onexit", 10 * (a + 1) + nid))
+            if rng.random() < 0.2:
+                ops.append(op("daemon"))
+            if rng.random() < 0.9:          # (no kill time: the restarted incarnation would arm a second one, left unspecified)
+                ops.append(op("autorestart"))
+            if rng.random() < 0.4:
+                nid += 1
+                ops.append(op("onexit", 10 * (a + 1) + nid))
+        for _ in range(rng.randint(1, max_ops)):
+            k = rng.choice(["sleep", "sleep", "sleep", "acq", "rel", "join", "yield", "suspend", "resume"])
+            others = [x for x in range(na) if x != a]
+            if k == "sleep":
+                ops.append(op("sleep", 0, 0, rng.randint(1, 4)))
+            elif k == "acq" and ns:
+                ops.append(op("acq" if rng.random() < 0.5 else "acqt", 1, 0, rng.randint(1, 4)))
+            elif k == "rel" and ns:
+                ops.append(op("rel", 1))
+            elif k == "join":
+                ops.append(op("join", rng.choice(others) + 1, 0, rng.choice([-1, 1, 3])))
+            elif k == "yield":
+                ops.append(op("yield"))
+            elif k in ("suspend", "resume") and a not in victims and rng.random() < 0.5:
+                ops.append(op(k, rng.choice(victims) + 1))
+    return new_prog(cap=[rng.choice([0, 1])] * ns, actors=actors, timed=True)
+
+
 def gen_life_prog(rng, max_actors=5, max_ops=6):
     """Actor lifecycle: create, on_exit callbacks, join with/without timeout, kill, kill_all, daemons, kill times, mixed with
     sleeps, executions and semaphore waits (no mutex / barrier: their queues keep killed actors, out of C11's scope)."""
